@@ -9,111 +9,135 @@ import (
 	"verif/vrt"
 )
 
-func p(op string) { vrt.Point(op, nil) }
+func p(op string, obj any) { vrt.Point(op, nil, obj) }
 
-func AddInt32(addr *int32, delta int32) int32 { p("atomic.add"); return atomic.AddInt32(addr, delta) }
-func AddInt64(addr *int64, delta int64) int64 { p("atomic.add"); return atomic.AddInt64(addr, delta) }
+func AddInt32(addr *int32, delta int32) int32 {
+	p("atomic.add", addr)
+	return atomic.AddInt32(addr, delta)
+}
+func AddInt64(addr *int64, delta int64) int64 {
+	p("atomic.add", addr)
+	return atomic.AddInt64(addr, delta)
+}
 func AddUint32(addr *uint32, delta uint32) uint32 {
-	p("atomic.add")
+	p("atomic.add", addr)
 	return atomic.AddUint32(addr, delta)
 }
 func AddUint64(addr *uint64, delta uint64) uint64 {
-	p("atomic.add")
+	p("atomic.add", addr)
 	return atomic.AddUint64(addr, delta)
 }
-func AddUintptr(addr *uintptr, d uintptr) uintptr { p("atomic.add"); return atomic.AddUintptr(addr, d) }
-func LoadInt32(addr *int32) int32                 { p("atomic.load"); return atomic.LoadInt32(addr) }
-func LoadInt64(addr *int64) int64                 { p("atomic.load"); return atomic.LoadInt64(addr) }
-func LoadUint32(addr *uint32) uint32              { p("atomic.load"); return atomic.LoadUint32(addr) }
-func LoadUint64(addr *uint64) uint64              { p("atomic.load"); return atomic.LoadUint64(addr) }
-func LoadUintptr(addr *uintptr) uintptr           { p("atomic.load"); return atomic.LoadUintptr(addr) }
+func AddUintptr(addr *uintptr, d uintptr) uintptr {
+	p("atomic.add", addr)
+	return atomic.AddUintptr(addr, d)
+}
+func LoadInt32(addr *int32) int32       { p("atomic.load", addr); return atomic.LoadInt32(addr) }
+func LoadInt64(addr *int64) int64       { p("atomic.load", addr); return atomic.LoadInt64(addr) }
+func LoadUint32(addr *uint32) uint32    { p("atomic.load", addr); return atomic.LoadUint32(addr) }
+func LoadUint64(addr *uint64) uint64    { p("atomic.load", addr); return atomic.LoadUint64(addr) }
+func LoadUintptr(addr *uintptr) uintptr { p("atomic.load", addr); return atomic.LoadUintptr(addr) }
 func LoadPointer(addr *unsafe.Pointer) unsafe.Pointer {
-	p("atomic.load")
+	p("atomic.load", addr)
 	return atomic.LoadPointer(addr)
 }
-func StoreInt32(addr *int32, v int32)       { p("atomic.store"); atomic.StoreInt32(addr, v) }
-func StoreInt64(addr *int64, v int64)       { p("atomic.store"); atomic.StoreInt64(addr, v) }
-func StoreUint32(addr *uint32, v uint32)    { p("atomic.store"); atomic.StoreUint32(addr, v) }
-func StoreUint64(addr *uint64, v uint64)    { p("atomic.store"); atomic.StoreUint64(addr, v) }
-func StoreUintptr(addr *uintptr, v uintptr) { p("atomic.store"); atomic.StoreUintptr(addr, v) }
+func StoreInt32(addr *int32, v int32)       { p("atomic.store", addr); atomic.StoreInt32(addr, v) }
+func StoreInt64(addr *int64, v int64)       { p("atomic.store", addr); atomic.StoreInt64(addr, v) }
+func StoreUint32(addr *uint32, v uint32)    { p("atomic.store", addr); atomic.StoreUint32(addr, v) }
+func StoreUint64(addr *uint64, v uint64)    { p("atomic.store", addr); atomic.StoreUint64(addr, v) }
+func StoreUintptr(addr *uintptr, v uintptr) { p("atomic.store", addr); atomic.StoreUintptr(addr, v) }
 func StorePointer(addr *unsafe.Pointer, v unsafe.Pointer) {
-	p("atomic.store")
+	p("atomic.store", addr)
 	atomic.StorePointer(addr, v)
 }
-func SwapInt32(addr *int32, v int32) int32     { p("atomic.swap"); return atomic.SwapInt32(addr, v) }
-func SwapInt64(addr *int64, v int64) int64     { p("atomic.swap"); return atomic.SwapInt64(addr, v) }
-func SwapUint32(addr *uint32, v uint32) uint32 { p("atomic.swap"); return atomic.SwapUint32(addr, v) }
-func SwapUint64(addr *uint64, v uint64) uint64 { p("atomic.swap"); return atomic.SwapUint64(addr, v) }
+func SwapInt32(addr *int32, v int32) int32 { p("atomic.swap", addr); return atomic.SwapInt32(addr, v) }
+func SwapInt64(addr *int64, v int64) int64 { p("atomic.swap", addr); return atomic.SwapInt64(addr, v) }
+func SwapUint32(addr *uint32, v uint32) uint32 {
+	p("atomic.swap", addr)
+	return atomic.SwapUint32(addr, v)
+}
+func SwapUint64(addr *uint64, v uint64) uint64 {
+	p("atomic.swap", addr)
+	return atomic.SwapUint64(addr, v)
+}
 func CompareAndSwapInt32(addr *int32, o, n int32) bool {
-	p("atomic.cas")
+	p("atomic.cas", addr)
 	return atomic.CompareAndSwapInt32(addr, o, n)
 }
 func CompareAndSwapInt64(addr *int64, o, n int64) bool {
-	p("atomic.cas")
+	p("atomic.cas", addr)
 	return atomic.CompareAndSwapInt64(addr, o, n)
 }
 func CompareAndSwapUint32(addr *uint32, o, n uint32) bool {
-	p("atomic.cas")
+	p("atomic.cas", addr)
 	return atomic.CompareAndSwapUint32(addr, o, n)
 }
 func CompareAndSwapUint64(addr *uint64, o, n uint64) bool {
-	p("atomic.cas")
+	p("atomic.cas", addr)
 	return atomic.CompareAndSwapUint64(addr, o, n)
 }
 func CompareAndSwapPointer(addr *unsafe.Pointer, o, n unsafe.Pointer) bool {
-	p("atomic.cas")
+	p("atomic.cas", addr)
 	return atomic.CompareAndSwapPointer(addr, o, n)
 }
 
 type Int32 struct{ v atomic.Int32 }
 
-func (x *Int32) Load() int32                    { p("atomic.load"); return x.v.Load() }
-func (x *Int32) Store(v int32)                  { p("atomic.store"); x.v.Store(v) }
-func (x *Int32) Add(d int32) int32              { p("atomic.add"); return x.v.Add(d) }
-func (x *Int32) Swap(v int32) int32             { p("atomic.swap"); return x.v.Swap(v) }
-func (x *Int32) CompareAndSwap(o, n int32) bool { p("atomic.cas"); return x.v.CompareAndSwap(o, n) }
+func (x *Int32) Load() int32                    { p("atomic.load", x); return x.v.Load() }
+func (x *Int32) Store(v int32)                  { p("atomic.store", x); x.v.Store(v) }
+func (x *Int32) Add(d int32) int32              { p("atomic.add", x); return x.v.Add(d) }
+func (x *Int32) Swap(v int32) int32             { p("atomic.swap", x); return x.v.Swap(v) }
+func (x *Int32) CompareAndSwap(o, n int32) bool { p("atomic.cas", x); return x.v.CompareAndSwap(o, n) }
 
 type Int64 struct{ v atomic.Int64 }
 
-func (x *Int64) Load() int64                    { p("atomic.load"); return x.v.Load() }
-func (x *Int64) Store(v int64)                  { p("atomic.store"); x.v.Store(v) }
-func (x *Int64) Add(d int64) int64              { p("atomic.add"); return x.v.Add(d) }
-func (x *Int64) Swap(v int64) int64             { p("atomic.swap"); return x.v.Swap(v) }
-func (x *Int64) CompareAndSwap(o, n int64) bool { p("atomic.cas"); return x.v.CompareAndSwap(o, n) }
+func (x *Int64) Load() int64                    { p("atomic.load", x); return x.v.Load() }
+func (x *Int64) Store(v int64)                  { p("atomic.store", x); x.v.Store(v) }
+func (x *Int64) Add(d int64) int64              { p("atomic.add", x); return x.v.Add(d) }
+func (x *Int64) Swap(v int64) int64             { p("atomic.swap", x); return x.v.Swap(v) }
+func (x *Int64) CompareAndSwap(o, n int64) bool { p("atomic.cas", x); return x.v.CompareAndSwap(o, n) }
 
 type Uint32 struct{ v atomic.Uint32 }
 
-func (x *Uint32) Load() uint32                    { p("atomic.load"); return x.v.Load() }
-func (x *Uint32) Store(v uint32)                  { p("atomic.store"); x.v.Store(v) }
-func (x *Uint32) Add(d uint32) uint32             { p("atomic.add"); return x.v.Add(d) }
-func (x *Uint32) Swap(v uint32) uint32            { p("atomic.swap"); return x.v.Swap(v) }
-func (x *Uint32) CompareAndSwap(o, n uint32) bool { p("atomic.cas"); return x.v.CompareAndSwap(o, n) }
+func (x *Uint32) Load() uint32         { p("atomic.load", x); return x.v.Load() }
+func (x *Uint32) Store(v uint32)       { p("atomic.store", x); x.v.Store(v) }
+func (x *Uint32) Add(d uint32) uint32  { p("atomic.add", x); return x.v.Add(d) }
+func (x *Uint32) Swap(v uint32) uint32 { p("atomic.swap", x); return x.v.Swap(v) }
+func (x *Uint32) CompareAndSwap(o, n uint32) bool {
+	p("atomic.cas", x)
+	return x.v.CompareAndSwap(o, n)
+}
 
 type Uint64 struct{ v atomic.Uint64 }
 
-func (x *Uint64) Load() uint64                    { p("atomic.load"); return x.v.Load() }
-func (x *Uint64) Store(v uint64)                  { p("atomic.store"); x.v.Store(v) }
-func (x *Uint64) Add(d uint64) uint64             { p("atomic.add"); return x.v.Add(d) }
-func (x *Uint64) Swap(v uint64) uint64            { p("atomic.swap"); return x.v.Swap(v) }
-func (x *Uint64) CompareAndSwap(o, n uint64) bool { p("atomic.cas"); return x.v.CompareAndSwap(o, n) }
+func (x *Uint64) Load() uint64         { p("atomic.load", x); return x.v.Load() }
+func (x *Uint64) Store(v uint64)       { p("atomic.store", x); x.v.Store(v) }
+func (x *Uint64) Add(d uint64) uint64  { p("atomic.add", x); return x.v.Add(d) }
+func (x *Uint64) Swap(v uint64) uint64 { p("atomic.swap", x); return x.v.Swap(v) }
+func (x *Uint64) CompareAndSwap(o, n uint64) bool {
+	p("atomic.cas", x)
+	return x.v.CompareAndSwap(o, n)
+}
 
 type Bool struct{ v atomic.Bool }
 
-func (x *Bool) Load() bool                    { p("atomic.load"); return x.v.Load() }
-func (x *Bool) Store(v bool)                  { p("atomic.store"); x.v.Store(v) }
-func (x *Bool) Swap(v bool) bool              { p("atomic.swap"); return x.v.Swap(v) }
-func (x *Bool) CompareAndSwap(o, n bool) bool { p("atomic.cas"); return x.v.CompareAndSwap(o, n) }
+func (x *Bool) Load() bool                    { p("atomic.load", x); return x.v.Load() }
+func (x *Bool) Store(v bool)                  { p("atomic.store", x); x.v.Store(v) }
+func (x *Bool) Swap(v bool) bool              { p("atomic.swap", x); return x.v.Swap(v) }
+func (x *Bool) CompareAndSwap(o, n bool) bool { p("atomic.cas", x); return x.v.CompareAndSwap(o, n) }
 
 type Value struct{ v atomic.Value }
 
-func (x *Value) Load() any                    { p("atomic.load"); return x.v.Load() }
-func (x *Value) Store(v any)                  { p("atomic.store"); x.v.Store(v) }
-func (x *Value) Swap(v any) any               { p("atomic.swap"); return x.v.Swap(v) }
-func (x *Value) CompareAndSwap(o, n any) bool { p("atomic.cas"); return x.v.CompareAndSwap(o, n) }
+func (x *Value) Load() any                    { p("atomic.load", x); return x.v.Load() }
+func (x *Value) Store(v any)                  { p("atomic.store", x); x.v.Store(v) }
+func (x *Value) Swap(v any) any               { p("atomic.swap", x); return x.v.Swap(v) }
+func (x *Value) CompareAndSwap(o, n any) bool { p("atomic.cas", x); return x.v.CompareAndSwap(o, n) }
 
 type Pointer[T any] struct{ v atomic.Pointer[T] }
 
-func (x *Pointer[T]) Load() *T                    { p("atomic.load"); return x.v.Load() }
-func (x *Pointer[T]) Store(v *T)                  { p("atomic.store"); x.v.Store(v) }
-func (x *Pointer[T]) Swap(v *T) *T                { p("atomic.swap"); return x.v.Swap(v) }
-func (x *Pointer[T]) CompareAndSwap(o, n *T) bool { p("atomic.cas"); return x.v.CompareAndSwap(o, n) }
+func (x *Pointer[T]) Load() *T     { p("atomic.load", x); return x.v.Load() }
+func (x *Pointer[T]) Store(v *T)   { p("atomic.store", x); x.v.Store(v) }
+func (x *Pointer[T]) Swap(v *T) *T { p("atomic.swap", x); return x.v.Swap(v) }
+func (x *Pointer[T]) CompareAndSwap(o, n *T) bool {
+	p("atomic.cas", x)
+	return x.v.CompareAndSwap(o, n)
+}
